@@ -55,17 +55,27 @@ Theorem C09_exited_quiescent c post suf :
   /\ (forall post2 post1, post = post2 ++ EQRun true :: post1 -> In (ECmd Run) post1).
 Proof. exact (exited_quiescent c post suf). Qed.
 
+(* the thread ends only because teardown was requested or run_condition() answered false:
+   in particular reset() and reboot() never terminate it *)
+Theorem C09_exit_only_by_teardown_or_condition c post suf :
+  reachable c -> c_trace c = post ++ EExit :: suf ->
+  In (ECmd Teardown) suf \/ last_rc suf = Some false.
+Proof. exact (exit_cause_ok c post suf). Qed.
+
 Theorem C09_exit_recorded_iff_final_store_done c :
   reachable c -> (In EExit (c_trace c) <-> (c_pc c = PDone \/ c_pc c = PExited)).
 Proof. exact (exited_pc c). Qed.
 
 (* bounded exit (a): from ANY reachable configuration in which teardown has been
    requested, under ANY continuation [ms] (controller commands, run_condition answers):
-   the thread is never disabled before it has exited, makes at most dist <= 15 moves
+   the thread is never disabled before it has exited (if the controller is between the
+   two stores of reboot() it can always finish that call), makes at most dist <= 15 moves
    of its own, has exited once it made that many, and starts at most one step *)
 Theorem C09_bounded_exit c ms c' :
   reachable c -> c_td c = true -> run_moves c ms = Some c' ->
-  (c_pc c' <> PExited -> forall b, exists c'', step c' (MThread b) = Some c'')
+  (c_pc c' <> PExited -> forall b,
+     (c_mid c' = false -> exists c'', step c' (MThread b) = Some c'')
+     /\ (c_mid c' = true -> exists c'', step c' MRebootEnd = Some c'' /\ c_mid c'' = false))
   /\ thread_moves ms <= dist (c_pc c) /\ dist (c_pc c) <= exit_bound
   /\ (dist (c_pc c) <= thread_moves ms -> c_pc c' = PExited)
   /\ (exists post, c_trace c' = post ++ c_trace c /\ count_steps post <= 1).
@@ -86,6 +96,11 @@ Theorem C09_step_generates_reachable c :
   reachable c <-> exists ms, run_moves init ms = Some c.
 Proof. exact (reachable_iff_run c). Qed.
 
+(* ... and agrees, move by move, with the rule-per-action relational presentation *)
+Theorem C09_relational_semantics_agree c m c' :
+  (sstep c m c' <-> step c m = Some c') /\ (reachable_rel c <-> reachable c).
+Proof. exact (conj (sstep_iff_step c m c') (reachable_rel_iff c)). Qed.
+
 (* the word semantics run against the library stays inside [reachable] *)
 Theorem C09_schedule_words_reachable w :
   reachable (run_word init w) /\ reachable (finish (run_word init w)).
@@ -96,7 +111,7 @@ Proof. split; [|apply finish_reachable]; apply run_word_reachable; constructor. 
 Theorem C09_every_word_ends_exited w :
   c_pc (finish (run_word init w)) = PExited
   /\ exists tr, c_trace (finish (run_word init w)) = ECmd Wait :: tr.
-Proof. apply finish_exits; [apply run_word_reachable; constructor | apply run_word_observable; reflexivity]. Qed.
+Proof. apply finish_exits; [apply run_word_reachable; constructor | apply run_word_ws; split; reflexivity]. Qed.
 
 (* the extracted trace monitors hold on every prefix of every reachable history *)
 Theorem C09_monitors_hold c : reachable c -> all_good (c_trace c) = true.
@@ -110,6 +125,15 @@ Theorem C09_teardown_hang_refuted :
          c_pc c' <> PExited /\ (forall b, step_old c' (MThread b) = None) /\ step_old c' (MCmd Wait) = None.
 Proof. exact teardown_hang. Qed.
 
+(* witness for the order of the two stores of reboot() (checked against the source text by
+   props/C09.py): with run_ = false BEFORE reset_ = true the thread can terminate on a reboot
+   although teardown was never requested and run_condition() last answered true *)
+Theorem C09_reboot_store_order_refuted :
+  exists c, run_moves_swapped init swapped_schedule = Some c
+    /\ c_trace c = [EExit; ECmd Reboot; ERc true; ERc false; EInit; ECmd Run]
+    /\ c_td c = false.
+Proof. exact reboot_store_order_matters. Qed.
+
 (* non-vacuity: a concrete schedule — run; two steps; reset inside step 1; the epoch is
    re-initialised; reboot inside the next step; the thread goes back to sleep; teardown *)
 Definition ex_word : list token :=
@@ -118,12 +142,21 @@ Definition ex_word : list token :=
 
 Example C09_concrete_schedule :
   history (run_word init ex_word) =
-    [ECmd Run; EInit; EStep 0; EStep 1; ECmd Reset; EInit; EStep 0; EQRun true; ECmd Reboot; EQStep 0]
+    [ECmd Run; EInit; ERc true; EStep 0; ERc true; EStep 1; ECmd Reset; ERc true; ERc true; EInit;
+     ERc true; EStep 0; EQRun true; ECmd Reboot; ERc true; ERc true; EQStep 0]
   /\ c_pc (run_word init ex_word) = PSleep
   /\ history (finish (run_word init ex_word)) =
-    history (run_word init ex_word) ++ [ECmd Teardown; EInit; EExit; ECmd Wait]
+    history (run_word init ex_word) ++ [ECmd Teardown; EInit; ERc true; ERc true; EExit; ECmd Wait]
   /\ all_good (c_trace (finish (run_word init ex_word))) = true.
 Proof. vm_compute. repeat split; reflexivity. Qed.
+
+(* reboot() is two stores: the configuration between them is reachable, and a thread that
+   evaluates its unlocked loop condition there (run_ still true, reset_ already true) goes on *)
+Example C09_reboot_between_stores :
+  exists c, run_moves init [MCmd Run; MCmd Reboot] = Some c
+            /\ c_mid c = true /\ c_run c = true /\ c_rst c = true
+            /\ step c (MCmd Run) = None /\ step c (MCmd Teardown) = None.
+Proof. eexists. vm_compute. repeat split; reflexivity. Qed.
 
 (* the premises of the bounded-exit theorems are satisfiable: teardown requested while a
    step is in progress (13 configurations deep), and run_condition turning false there *)
@@ -138,11 +171,14 @@ Print Assumptions C09_reset_honoured.
 Print Assumptions C09_reboot_waits_for_run.
 Print Assumptions C09_teardown_one_step.
 Print Assumptions C09_exited_quiescent.
+Print Assumptions C09_exit_only_by_teardown_or_condition.
 Print Assumptions C09_exit_recorded_iff_final_store_done.
 Print Assumptions C09_bounded_exit.
 Print Assumptions C09_bounded_exit_run_condition_false.
 Print Assumptions C09_step_generates_reachable.
+Print Assumptions C09_relational_semantics_agree.
 Print Assumptions C09_schedule_words_reachable.
 Print Assumptions C09_every_word_ends_exited.
 Print Assumptions C09_monitors_hold.
 Print Assumptions C09_teardown_hang_refuted.
+Print Assumptions C09_reboot_store_order_refuted.
